@@ -27,7 +27,25 @@ def F_MS(g, u):
 
 # --------------------------------------------------------------------------- calculate(r, gamma)
 
-@contract('pyPRISM/closure/PercusYevick.py::PercusYevick.calculate', props=['C09', 'C03', 'C01'])
+# C03 is only about the core: "at each individual evaluation ... the closure output satisfies c + gamma = -1 there
+# exactly".  For C03 the closure obligations are therefore the core clause on the code's own post-state (and that a
+# flagged closure evaluates at all), not the full refinement against F (that is C09).
+C03_ONLY = {'C03': ['post_body: core*', 'outcome*']}
+
+
+def _core_post(f, args, res):
+    """Clauses of C03/C09 stated directly on the code's post-state (both factories)."""
+    self, r, gamma = args['self'], args['r'], args['gamma']
+    if not f.getattr(self, 'apply_hard_core'):
+        return []
+    sigma = f.getattr(self, 'sigma')
+    n = gamma.shape[0]
+    return [('core: value[i] + gamma[i] == -1 wherever r[i] <= sigma',
+             f.forall(n, lambda i: f.implies(f.elem(r, (i,)) <= sigma, f.eq(f.elem(res, (i,)) + f.elem(gamma, (i,)), -1)))),
+            ('core: stored value is the returned array', f.getattr(self, 'value') is res)]
+
+
+@contract('pyPRISM/closure/PercusYevick.py::PercusYevick.calculate', props=['C09', 'C03', 'C01'], only=C03_ONLY)
 def PercusYevick_calculate(self, r, gamma):
     if self.potential is None:
         raise AssertionError
@@ -44,7 +62,7 @@ def PercusYevick_calculate(self, r, gamma):
     return self.value
 
 
-@contract('pyPRISM/closure/HyperNettedChain.py::HyperNettedChain.calculate', props=['C09', 'C03', 'C01'])
+@contract('pyPRISM/closure/HyperNettedChain.py::HyperNettedChain.calculate', props=['C09', 'C03', 'C01'], only=C03_ONLY)
 def HyperNettedChain_calculate(self, r, gamma):
     if self.potential is None:
         raise AssertionError
@@ -61,7 +79,7 @@ def HyperNettedChain_calculate(self, r, gamma):
     return self.value
 
 
-@contract('pyPRISM/closure/MeanSphericalApproximation.py::MeanSphericalApproximation.calculate', props=['C09', 'C03', 'C01'])
+@contract('pyPRISM/closure/MeanSphericalApproximation.py::MeanSphericalApproximation.calculate', props=['C09', 'C03', 'C01'], only=C03_ONLY)
 def MeanSphericalApproximation_calculate(self, r, gamma):
     if self.potential is None:
         raise AssertionError
@@ -77,7 +95,7 @@ def MeanSphericalApproximation_calculate(self, r, gamma):
     return self.value
 
 
-@contract('pyPRISM/closure/MartynovSarkisov.py::MartynovSarkisov.calculate', props=['C09', 'C03', 'C01'])
+@contract('pyPRISM/closure/MartynovSarkisov.py::MartynovSarkisov.calculate', props=['C09', 'C03', 'C01'], only=C03_ONLY)
 def MartynovSarkisov_calculate(self, r, gamma):
     if self.potential is None:
         raise AssertionError
@@ -91,6 +109,25 @@ def MartynovSarkisov_calculate(self, r, gamma):
         self.value = pointwise(len(gamma), lambda i: (-1 - gamma[i]) if r[i] <= sigma else F_MS(gamma[i], u[i]))
     else:
         self.value = pointwise(len(gamma), lambda i: F_MS(gamma[i], u[i]))
+    return self.value
+
+
+@defect_of(MartynovSarkisov_calculate, 'ms-radicand')
+def MartynovSarkisov_calculate_shipped(self, r, gamma):
+    """What the pinned tree computes: F_MS with the radicand 1 + 2(gamma-u) replaced by (gamma-u) + 0.5 (DESIGN.md 5, #8).
+    Not a contract: it only identifies the recorded finding, so that any *other* deviation from F_MS is still reported."""
+    if self.potential is None:
+        raise AssertionError
+    if len(gamma) != len(self.potential):
+        raise AssertionError
+    u = self.potential
+    if self.apply_hard_core:
+        if self.sigma is None:
+            raise AssertionError
+        sigma = self.sigma
+        self.value = pointwise(len(gamma), lambda i: (-1 - gamma[i]) if r[i] <= sigma else exp(sqrt(gamma[i] - u[i] + 0.5) - 1.0) - 1.0 - gamma[i])
+    else:
+        self.value = pointwise(len(gamma), lambda i: exp(sqrt(gamma[i] - u[i] + 0.5) - 1.0) - 1.0 - gamma[i])
     return self.value
 
 
@@ -109,7 +146,8 @@ def _calc_cases(clsref, allow_sigma_none=True):
                         old_value = f.array('old_value', (n,))   # whatever an earlier call left behind
                         self = f.obj(clsref, potential=u, value=old_value, sigma=sigma, apply_hard_core=hc)
                         return dict(self=self, r=r, gamma=gamma)
-                    yield 'hard_core=%s,potential=%s,sigma=%s' % (hc, pot, sig), build
+                    opts = {'post_body': _core_post} if (hc and pot == 'array' and sig == 'real') else {}
+                    yield 'hard_core=%s,potential=%s,sigma=%s' % (hc, pot, sig), build, opts
     return gen
 
 
